@@ -326,6 +326,7 @@ def r3_weighted_sum(ctx: Context) -> None:
                     # `for i in range(D)`, `for i, block in enumerate(filtered)`, `for block, w in zip(filtered, weights)` give the same term
                     from ..util import IDX, _substitute, loop_binding
                     benv, counts = loop_binding(lp.target, lp.iter)
+                    benv, counts = _through_list_locals(n, benv, counts)
                     for nm, ve in benv.items():
                         term = _substitute(term, nm, ve)
                     idx = IDX
@@ -355,6 +356,31 @@ def r3_weighted_sum(ctx: Context) -> None:
         got = n.rat(term)
         ctx.check(got.equals(want), "R3.term", "BaseLoss.compute_loss:term", "term i = compute_loss_1d(filtered[i], real[:, i]) * weights[i] (one index)",
                   f"term is `{str(got)[:260]}`", f, term)
+
+
+def _through_list_locals(n, benv: dict, counts: list) -> tuple[dict, list]:
+    """A loop over a local bound once to `[E(j) for j in H]` visits E(_I_): the element `L[_I_]` is E read through H's own canonical binding, and `len(L)` is H's
+    trip count (`losses_1d = [loss(i) for i in range(D)]; for l, w in zip(losses_1d, weights)`)."""
+    from ..util import IDX, _substitute, loop_binding
+    out_env, out_counts = dict(benv), []
+    comps = {}
+    for nm, ve in benv.items():
+        if isinstance(ve, ast.Subscript) and isinstance(ve.value, ast.Name) and src(ve.slice) == IDX:
+            comp = n.env.get(ve.value.id)
+            if isinstance(comp, ast.ListComp) and len(comp.generators) == 1 and not comp.generators[0].ifs:
+                try:
+                    e2, c2 = loop_binding(comp.generators[0].target, comp.generators[0].iter)
+                except AnalysisError:
+                    continue
+                elt = comp.elt
+                for k, v in e2.items():
+                    elt = _substitute(elt, k, v)
+                out_env[nm] = ast.fix_missing_locations(elt)
+                comps[ve.value.id] = c2
+    for c in counts:
+        hit = next((nm for nm in comps if src(c).replace(" ", "") == f"len({nm})"), None)
+        out_counts.extend(comps[hit] if hit else [c])
+    return out_env, out_counts
 
 
 # ---------------------------------------------------------------------------------------------- R4
